@@ -42,9 +42,10 @@ func New(cfg Config) *Pair {
 		InsecureAuth: true,
 		Caps:         cfg.Caps,
 	})
-	p.C, p.S = p.Env.L.Dial()
+	p.C, p.S = pipe.New()
 	p.C.OnWrite = func(b []byte) { p.ClientBytes.Write(b) }
 	p.S.OnWrite = func(b []byte) { p.ServerBytes.Write(b) }
+	p.Env.L.DialConn(p.S) // hooks are installed before the server writes its greeting
 	p.Client = imapclient.New(p.C, cfg.Options)
 	return p
 }
